@@ -86,6 +86,9 @@ func main() {
 		},
 		Run: run,
 		Finish: func(st *simrun.Stats, extra map[string]interface{}) {
+			if n := leftBehind; len(n) > 0 {
+				extra["files_left_behind_by_plugin_processes"] = n
+			}
 			os.RemoveAll(workDir)
 		},
 	})
@@ -110,16 +113,40 @@ type result struct {
 	Class  string            // response | error | panic | exit
 	Error  string            // plugin error string
 	Files  map[string]string // name -> content
-	Names  []string
+	Names  []string // sorted
+	Order  []string // as they appear in the response
 	Detail string
 	Child  map[string]interface{}
 }
 
+// Every directory a plugin process could be tempted to keep state in (home,
+// cache, temp) lies below $W, a directory of this run only: what one
+// invocation leaves there is seen by later invocations of the same run that
+// share the environment, by nothing else, and is gone after the run.
 var envPool = [][]string{
-	{"HOME=/root", "USER=root", "LANG=C", "TZ=UTC"},
-	{"HOME=/home/alice", "USER=alice", "LANG=en_US.UTF-8", "TZ=Asia/Tokyo", "SOURCE_DATE_EPOCH=1", "GOPATH=/home/alice/go"},
-	{"HOME=/nonexistent", "USER=bob", "LOGNAME=bob", "LANG=de_DE.UTF-8", "LC_ALL=de_DE.UTF-8", "TZ=America/New_York", "SOURCE_DATE_EPOCH=1900000000", "GOPATH=/tmp/gp", "VERIFSIM_JUNK=x y z", "HOSTNAME=buildhost-17"},
-	{"USER=", "TZ=:/etc/localtime", "TMPDIR=/var/tmp", "PWD=/somewhere/else", "GOFLAGS=-mod=mod", "PROTOC_GEN_GO_PULSAR_DEBUG=1"},
+	{"HOME=$W/home/root", "USER=root", "LANG=C", "TZ=UTC", "TMPDIR=$W/tmp"},
+	{"HOME=$W/home/alice", "USER=alice", "LANG=en_US.UTF-8", "TZ=Asia/Tokyo", "SOURCE_DATE_EPOCH=1", "GOPATH=$W/home/alice/go", "TMPDIR=$W/tmp", "XDG_CACHE_HOME=$W/home/alice/xdg-cache"},
+	{"HOME=$W/nonexistent", "USER=bob", "LOGNAME=bob", "LANG=de_DE.UTF-8", "LC_ALL=de_DE.UTF-8", "TZ=America/New_York", "SOURCE_DATE_EPOCH=1900000000", "GOPATH=$W/gp", "VERIFSIM_JUNK=x y z", "HOSTNAME=buildhost-17", "TMPDIR=$W/nonexistent-tmp"},
+	{"USER=", "TZ=:/etc/localtime", "TMPDIR=$W/tmp-b", "HOME=$W/home/root", "PWD=/somewhere/else", "GOFLAGS=-mod=mod", "PROTOC_GEN_GO_PULSAR_DEBUG=1"},
+	// the environment of the invocations that follow an earlier, different one
+	{"HOME=$W/home/hist", "USER=root", "LANG=C", "TZ=UTC", "TMPDIR=$W/tmp-hist"},
+}
+
+const envHist = 4
+
+var runHome string // $W of the current run
+
+func newRunHome(n int) error {
+	if runHome != "" {
+		os.RemoveAll(runHome)
+	}
+	runHome = filepath.Join(workDir, fmt.Sprintf("w%d", n))
+	for _, d := range []string{"home/root", "home/alice", "home/hist", "tmp", "tmp-b", "tmp-hist", "cwd/cwd-a", "cwd/cwd-b/deeper/still", "cwd/cwd with space"} {
+		if err := os.MkdirAll(filepath.Join(runHome, d), 0o755); err != nil {
+			return err
+		}
+	}
+	return nil
 }
 
 func topoReorder(t *simhook.Tape, files []*descriptorpb.FileDescriptorProto) []*descriptorpb.FileDescriptorProto {
@@ -188,8 +215,11 @@ func execVariant(c *simrun.Ctx, base *pluginpb.CodeGeneratorRequest, vs *variant
 			os.Remove(f)
 		}
 	}()
-	cwd := filepath.Join(workDir, vs.Cwd)
-	env := append([]string{"PATH=/usr/bin:/bin"}, vs.Env...)
+	cwd := filepath.Join(runHome, "cwd", vs.Cwd)
+	env := []string{"PATH=/usr/bin:/bin"}
+	for _, e := range vs.Env {
+		env = append(env, strings.ReplaceAll(e, "$W", runHome))
+	}
 	var cmd *exec.Cmd
 	var stderr bytes.Buffer
 	res := &result{Files: map[string]string{}}
@@ -290,6 +320,7 @@ func execVariant(c *simrun.Ctx, base *pluginpb.CodeGeneratorRequest, vs *variant
 		}
 		res.Files[name] = f.GetContent()
 		res.Names = append(res.Names, name)
+		res.Order = append(res.Order, name)
 	}
 	sort.Strings(res.Names)
 	return res
@@ -330,6 +361,10 @@ func run(c *simrun.Ctx) *simrun.Violation {
 	t := c.T
 	st := c.Stats
 	runCount++
+	if err := newRunHome(runCount); err != nil {
+		c.EngineError = err.Error()
+		return nil
+	}
 	var base *pluginpb.CodeGeneratorRequest
 	src := t.Draw("source", 8)
 	srcName := "random"
@@ -347,7 +382,7 @@ func run(c *simrun.Ctx) *simrun.Violation {
 	}
 	if src > 3 {
 		srcName = "random"
-		set := shapesdesc.RandomSet(t, shapesdesc.RandomOpts{AllowProto2: true, ReservedNames: true, Extensions: true, Services: true})
+		set := shapesdesc.RandomSet(t, shapesdesc.RandomOpts{AllowProto2: true, ReservedNames: true, Extensions: true, Services: true, LegacyPaths: true})
 		needDesc := false
 		for _, f := range set {
 			for _, d := range f.Dependency {
@@ -427,7 +462,7 @@ func run(c *simrun.Ctx) *simrun.Violation {
 					st.Add("simulated_seconds", vs.ClockJumpS)
 				}
 			}
-			if e := t.Draw("env", len(envPool)); e > 0 {
+			if e := t.Draw("env", envHist); e > 0 {
 				vs.Env = envPool[e]
 				st.Add("fault_environment_changed", 1)
 			}
@@ -554,6 +589,11 @@ func run(c *simrun.Ctx) *simrun.Violation {
 			if r.Class == "response" && strings.Join(ref.Names, "\x00") != strings.Join(r.Names, "\x00") {
 				return mk("C13:file-set-differs-for-same-request", ref, refSpec, map[string]interface{}{"names_a": ref.Names, "names_b": r.Names})
 			}
+			if r.Class == "response" && sameReq && strings.Join(ref.Order, "\x00") != strings.Join(r.Order, "\x00") {
+				// the response as a whole is a function of the request: for a
+				// byte-identical request the files come in the same order
+				return mk("C13:file-order-in-response-differs-for-same-request", ref, refSpec, map[string]interface{}{"order_a": ref.Order, "order_b": r.Order})
+			}
 		}
 		if r.Class != "response" || v0.Class != "response" {
 			continue
@@ -593,6 +633,61 @@ func run(c *simrun.Ctx) *simrun.Violation {
 			}
 		}
 	}
+	if v0 != nil && v0.Class == "response" && t.Chance("prior-invocation", 1, 3) {
+		// Durable state: an EARLIER, different invocation in the same user
+		// environment (home, cache and temp directories of their own), then the
+		// request itself there. Whatever the earlier process left on disk, the
+		// response must be the one a fresh environment gave.
+		prior := proto.Clone(base).(*pluginpb.CodeGeneratorRequest)
+		what := "parameter"
+		if k := t.Draw("prior-kind", 3); k < 2 && len(prior.ProtoFile) > 0 {
+			f := prior.ProtoFile[t.Draw("prior-file", len(prior.ProtoFile))]
+			if f.Options == nil {
+				f.Options = &descriptorpb.FileOptions{}
+			}
+			gp := f.Options.GetGoPackage()
+			path, name := gp, ""
+			if i := strings.Index(gp, ";"); i >= 0 {
+				path, name = gp[:i], gp[i:]
+			}
+			if path == "" {
+				path = "example.com/rnd/unnamed"
+			}
+			f.Options.GoPackage = proto.String(path + "/v2" + name)
+			what = "go_package of " + f.GetName()
+		} else {
+			prior.Parameter = proto.String(paramPool[t.Draw("prior-param", len(paramPool))])
+		}
+		hs := &variantSpec{Leg: "sim", Env: envPool[envHist], Argv0: "protoc-gen-go-pulsar", Generate: full}
+		rp := execVariant(c, prior, hs, fmt.Sprintf("r%d-prior", runCount))
+		if rp == nil {
+			return nil
+		}
+		r := execVariant(c, base, hs, fmt.Sprintf("r%d-after", runCount))
+		if r == nil {
+			return nil
+		}
+		st.Add("plugin_invocations", 2)
+		st.Add("plugin_invocations_sim", 2)
+		st.Add("fault_earlier_different_invocation_in_same_home_and_tmp", 1)
+		c.Tracef("earlier invocation differing in %s -> %s; then the request itself in that environment -> %s (%d files)", what, rp.Class, r.Class, len(r.Files))
+		c.Observe(simhook.HashString(rp.Class), simhook.HashString(r.Class), uint64(len(r.Files)))
+		det := map[string]interface{}{"source": srcName, "parameter": base.GetParameter(), "files_to_generate": full, "earlier_invocation_differed_in": what,
+			"earlier_outcome": rp.Class + " " + clip(rp.Error+rp.Detail, 300), "variant_a": v0spec, "variant_b": hs}
+		if r.Class != v0.Class || strings.Join(r.Order, "\x00") != strings.Join(v0.Order, "\x00") {
+			det["outcome_a"], det["outcome_b"] = v0.Class+" "+clip(v0.Error+v0.Detail, 400), r.Class+" "+clip(r.Error+r.Detail, 400)
+			det["order_a"], det["order_b"] = v0.Order, r.Order
+			return &simrun.Violation{Class: "C13:response-depends-on-an-earlier-invocation", Detail: det}
+		}
+		for _, n := range r.Names {
+			st.Add("file_contents_compared", 1)
+			if r.Files[n] != v0.Files[n] {
+				det["file"], det["sha_a"], det["sha_b"], det["diff"] = n, hashOf(v0.Files[n]), hashOf(r.Files[n]), firstDiffLines(v0.Files[n], r.Files[n])
+				return &simrun.Violation{Class: "C13:response-depends-on-an-earlier-invocation", Detail: det}
+			}
+		}
+	}
+	noteLeftBehind(st)
 	if v0 != nil {
 		names := v0.Names
 		if len(names) > 4 {
@@ -601,6 +696,27 @@ func run(c *simrun.Ctx) *simrun.Violation {
 		c.Sample = map[string]interface{}{"source": srcName, "files_to_generate": full, "parameter": base.GetParameter(), "variants": nVar, "outcome": v0.Class, "files": names, "trace": c.Trace}
 	}
 	return nil
+}
+
+// leftBehind: files plugin processes created in their home/cache/temp
+// directories (reported in the evidence; not a violation by itself - the
+// property is about the response).
+var leftBehind []string
+
+func noteLeftBehind(st *simrun.Stats) {
+	if runHome == "" {
+		return
+	}
+	filepath.Walk(runHome, func(p string, fi os.FileInfo, err error) error {
+		if err == nil && !fi.IsDir() {
+			st.Add("probe_files_left_behind_by_plugin_processes", 1)
+			if len(leftBehind) < 5 {
+				rel, _ := filepath.Rel(runHome, p)
+				leftBehind = append(leftBehind, rel)
+			}
+		}
+		return nil
+	})
 }
 
 func sortedCopy(s []string) []string {
